@@ -26,13 +26,15 @@ theorem walkVisits_inv (e : Env) (wf : WF e) (t : Nat) (fuel : Nat) (σ : St) (w
         · rename_i hb
           have h1 := scheduleSlot_inv e σ t w wf hinv hlf hw
           have h2 := closed_scheduleSlot (solid_closed e wf) wf σ t w hinv hlf trivial hw hin hs
-          refine ih _ _ h1.1 h2 (walkOk_advance e t wf _ _ _ (h1.2 hcont)) ⟨?_, ?_⟩ p hp
+          refine ih _ _ h1.1 h2 (walkOk_advance e t wf _ _ _ (h1.2 hcont)) ⟨?_, ?_, ?_⟩ p hp
           · simp only [Bool.or_eq_true, decide_eq_true_eq, not_or, Int.not_lt] at hb
             exact hb.1
           · show (0 : Rat) ≤ (e.G : Rat) - 1 / 1000000
             have : (1 : Int) ≤ e.G := wf.G_pos
             have : (1 : Rat) ≤ (e.G : Rat) := by exact_mod_cast this
             grind
+          · simp only [Bool.or_eq_true, decide_eq_true_eq, not_or, Int.not_lt] at hb
+            exact hb.2
 
 /-- the walk from any of its visits on ends in the same state -/
 theorem walkVisits_suffix (e : Env) (t : Nat) (fuel : Nat) (σ : St) (w : Walk) :
@@ -197,9 +199,8 @@ theorem scheduleTask_no_idle_interval_sel (e : Env) (wf : WF e) (σ : St) (t r :
     have hw : WalkOk e t { cur := (initCursor e σ t).1, offset := (initCursor e σ t).2 } :=
       ⟨hoff.1, hoff.2, wf.effort_nonneg t⟩
     have hin : WalkIn e { cur := (initCursor e σ t).1, offset := (initCursor e σ t).2 } := by
-      refine ⟨?_, initCursor_room e σ t wf⟩
       simp only [Bool.or_eq_true, decide_eq_true_eq, not_or, Int.not_lt] at hout
-      exact hout.1
+      exact ⟨hout.1, initCursor_room e σ t wf, hout.2⟩
     have hfi : FInv e (σ.setT t (σ.tst t)) t r { cur := (initCursor e σ t).1, offset := (initCursor e σ t).2 } [] := by
       refine ⟨⟨fun i _ => hclean i, fun i hi => absurd hi List.not_mem_nil,
           by show (0 : Rat) = sumOver _ r t [] / 3600 * (e.resD r).eff; simp only [sumOver]; grind, List.nodup_nil⟩,
